@@ -609,13 +609,23 @@ def check_sort_comparability(rep, prog):
             for t_, val in pairs:
                 if isinstance(t_, ast.Name):
                     kinds.setdefault(t_.id, set()).add('none' if isinstance(val, ast.Constant) and val.value is None else 'value')
-    apps = [c for c in own_nodes(fn) if isinstance(c, ast.Call) and isinstance(c.func, ast.Attribute) and c.func.attr == 'append' and c.args and isinstance(c.args[0], ast.Tuple)
-            and isinstance(c.func.value, ast.Subscript)]
+    single = {}
+    for n in own_nodes(fn):
+        if isinstance(n, ast.Assign) and len(n.targets) == 1 and isinstance(n.targets[0], ast.Name):
+            single.setdefault(n.targets[0].id, []).append(n.value)
+
+    def _tuple_of(e):
+        # the appended tuple, written in place or held in a temporary assigned once
+        if isinstance(e, ast.Name) and len(single.get(e.id, [])) == 1:
+            e = single[e.id][0]
+        return e if isinstance(e, ast.Tuple) else None
+    apps = [_tuple_of(c.args[0]) for c in own_nodes(fn) if isinstance(c, ast.Call) and isinstance(c.func, ast.Attribute) and c.func.attr == 'append' and len(c.args) == 1
+            and isinstance(c.func.value, ast.Subscript) and _tuple_of(c.args[0]) is not None and any(isinstance(x, ast.Call) and ast.unparse(x.func) == 'int' for x in ast.walk(_tuple_of(c.args[0])))]
     hetero = set()
     width = None
-    for c in apps[:1]:
-        width = len(c.args[0].elts)
-        for k, e in enumerate(c.args[0].elts):
+    for tup in apps[:1]:
+        width = len(tup.elts)
+        for k, e in enumerate(tup.elts):
             if isinstance(e, ast.Name) and kinds.get(e.id, set()) >= {'none', 'value'}:
                 hetero.add(k)
     sorts = [c for c in own_nodes(fn) if isinstance(c, ast.Call) and ((isinstance(c.func, ast.Name) and c.func.id == 'sorted') or (isinstance(c.func, ast.Attribute) and c.func.attr == 'sort'))]
